@@ -8,7 +8,7 @@
 From Coq Require Import ZArith List Bool NArith.
 From Coq.Strings Require Import Byte String.
 From EsVerif.Common Require Import Base Bytes.
-From EsVerif.C01 Require Import Framing Model Spec Layout.
+From EsVerif.C01 Require Import Framing Model Spec Layout Big.
 Import ListNotations.
 Open Scope Z_scope.
 Open Scope list_scope.
@@ -115,3 +115,33 @@ Definition v_mkheader (ukeys : list (list byte)) (impl : list (list byte * Z)) :
 (* ---- literal compression for the printers: the text handed to eval is the pformat text with
    every newline replaced by a blank (checked byte-for-byte in Python before it is printed so) *)
 Definition nl2sp (l : list byte) : list byte := map (fun b => if byte_eqb b x0a then x20 else b) l.
+
+(* ---- many-rows family (tables around the block sizes a C reader or stdio could use: 2^k, 2^k +- 1,
+   k = 10..17).  Same verdicts as v_sfile / v_recfile, evaluated with the fast readers of Big.v
+   (Properties.C01_fast_readers_are_model: the same functions); rows, file data and read-back rows
+   come in as arithmetic-progression runs (Big.dec_runs) and are compared as decoded byte lists *)
+Definition v_big_sfile (d : list byte) (dt : dtype) (rows : list (list byte)) (ukeys : list (list byte))
+           (impl_file : list byte) (impl_scan : result (list byte * Z)) (impl_evaltext : result (list byte))
+           (out : result sf_out) : Z :=
+  let mfile := sfile_file d rows in
+  verdict
+    (bytes_eqb mfile impl_file
+     && result_eqb scan_eqb (scan_model impl_file) impl_scan
+     && result_eqb bytes_eqb (evaltext_model impl_file) impl_evaltext
+     && result_eqb szrows_eqb (sfile_read_c_fast mfile dt)
+          (match out with Ok o => Ok (o_size o, o_rows o) | Err e => Err e end))
+    (match out with Ok o => sf_check dt rows ukeys o | Err _ => false end).
+
+Definition v_big_recfile (dt : dtype) (rows : list (list byte)) (nrows : option Z)
+           (impl_file : list byte) (out : result (dtype * list (list byte))) : Z :=
+  verdict
+    (bytes_eqb (recfile_write rows) impl_file
+     && result_eqb rows_eqb (recfile_read0_fast (recfile_write rows) dt nrows)
+          (match out with Ok o => Ok (snd o) | Err e => Err e end))
+    (match out with Ok o => rf_check dt rows o | Err _ => false end).
+
+(* the implementation returned something too irregular to be printed as runs: [window] are its
+   rows from row [r] on, as literals, around the first row that differs from the table written.
+   Never 0: 3 when the window differs from the rows of the table (a failing input), else 1. *)
+Definition v_big_window (rows : list (list byte)) (r : Z) (window : list (list byte)) : Z :=
+  verdict false (rows_eqb window (firstn (length window) (skipn (Z.to_nat r) rows))).
